@@ -57,3 +57,32 @@ def rule_module_state(ctx):
                      "%s:%d (%s, written in %s)" % (cell.module.relpath, node.lineno, cell.name, writer.qualname.replace("cutplace.", "")),
                      "%s %s is run-time state (%s): %s" % ("attribute" if "." in cell.name else "module-level", cell.name, cell.kind, cell.reason),
                      {"writers": sorted({f.qualname for f, _, _ in cell.writers}), "readers": sorted({f.qualname for f, _ in cell.readers})})
+
+
+def rule_undefined_attributes(ctx):
+    """
+    X-ATTR: no function of the package reads an attribute that no class of the receiver's hierarchy defines (a misspelt
+    name is an AttributeError - not a cutplace error - for whoever calls the function first).  Receivers: ``self``, locals
+    with an inferred class, parameters whose docstring states their class.  Decided by cpsa/xattr.py.
+    """
+    from ..escape import CallGraph
+    from .. import xattr
+
+    findings, judged = xattr.undefined_attribute_reads(ctx.model, CallGraph(ctx.model))
+    ctx.res.minimum("X-ATTR", 1)
+    if judged < 400:
+        raise AnalysisError("X-ATTR judged only %d attribute reads (expected several hundred)" % judged)
+    if not findings:
+        ctx.res.ok("X-ATTR", "all %d attribute reads on receivers of known class name attributes their class hierarchy defines" % judged, True)
+    for func, node, cls, attribute in findings:
+        ctx.res.fail("X-ATTR", "attribute %s of %s exists" % (attribute, cls.name),
+                     "%s:X-ATTR:%s.%s" % (func.qualname.replace("cutplace.", ""), cls.name, attribute),
+                     "%s:%d (%s)" % (func.module.relpath, node.lineno, func.qualname.replace("cutplace.", "")),
+                     "%s reads %s.%s, but neither %s nor its bases or subclasses define '%s': the first call ends in AttributeError"
+                     % (func.qualname.replace("cutplace.", ""), ast_text(node.value), attribute, cls.name, attribute))
+
+
+def ast_text(node):
+    import ast
+
+    return ast.unparse(node)
